@@ -58,9 +58,14 @@ class MatForm:
         p: Poly = {}
         for w1, c1 in self.p.items():
             for w2, c2 in o.p.items():
-                w = w1 + w2
+                w = _chol_rewrite(w1 + w2)
                 p[w] = p.get(w, 0) + c1 * c2
         return self._with(p, o)
+
+    @staticmethod
+    def chol(a: "MatForm"):
+        """lower Cholesky factor L of a (symmetric) form A:  L.L^T = A"""
+        return MatForm({(("CHOL", a.key(), False),): 1}, a.sym)
 
     def T(self):
         sym = self.sym
@@ -68,6 +73,8 @@ class MatForm:
         def tf(f):
             if f[0] == "A":
                 return f if f[1] in sym else ("A", f[1], not f[2])
+            if f[0] == "CHOL":
+                return ("CHOL", f[1], not f[2])
             # INV: (X^-1)^T = (X^T)^-1 ; key holds the canonical form of X, recompute for X^T
             inner = MatForm(dict(f[1]), sym).T() if not f[3] else None
             if f[3]:  # inner polynomial known symmetric
@@ -107,9 +114,27 @@ class MatForm:
         return " ".join(parts).lstrip("+")
 
 
+def _chol_rewrite(w):
+    """Inv(L^T).Inv(L) = Inv(L.L^T) = Inv(A) for L = Chol(A)   (the only Cholesky identity the checks need)"""
+    out = list(w)
+    i = 0
+    while i + 1 < len(out):
+        a, b = out[i], out[i + 1]
+        if a[0] == "INV" and b[0] == "INV" and len(a[1]) == 1 and len(b[1]) == 1:
+            (wa, ca), (wb, cb) = a[1][0], b[1][0]
+            if ca == 1 and cb == 1 and len(wa) == 1 and len(wb) == 1 and wa[0][0] == "CHOL" and wb[0][0] == "CHOL" \
+                    and wa[0][1] == wb[0][1] and wa[0][2] is True and wb[0][2] is False:
+                out[i:i + 2] = [("INV", wa[0][1], False, True)]
+                continue
+        i += 1
+    return tuple(out)
+
+
 def _fac_repr(f):
     if f[0] == "A":
         return f[1] + ("^T" if f[2] else "")
+    if f[0] == "CHOL":
+        return "Chol(" + repr(MatForm(dict(f[1]))) + ")" + ("^T" if f[2] else "")
     return "Inv(" + repr(MatForm(dict(f[1]))) + ")"
 
 
